@@ -55,8 +55,9 @@ LEGACY_HOLDING = ["TypeOK", "PendingGuards", "DatainfoLast", "LocksScoped", "Cle
 LEGACY_INVARIANTS = [("InvI", "I"), ("InvIOther", "I"), ("InvDOther", "D"), ("InvAnn", "L"), ("InvLogNoTorn", "L")]
 # two processes
 TWO_HOLDING = ["TypeOK", "PendingGuards", "DatainfoLast", "IndexImpliesComplete", "LocksScoped", "Exclusion",
-               "LogHeaderOK", "InvLogNoTorn", "InvDOther", "InvA", "InvAnn"]
-TWO_INVARIANTS = [("InvIOpen", "I"), ("InvIStore", "I")]  # expected to fail: racing constructors (log.tmp), racing store_key
+               "LogHeaderOK", "InvDOther", "InvA", "InvAnn"]
+# expected to fail: racing constructors (log.tmp: one of them fails / a logged line is lost), racing store_key
+TWO_INVARIANTS = [("InvIOpen", "I"), ("InvLogNoTorn", "L"), ("InvIStore", "I")]
 ACTIONS = ["InitDirs", "OpenLogTmp", "CloseLogTmp", "RenameLog", "InitCommon", "MkKeyDirs", "TouchLock", "LockEx", "TouchPending",
            "ListHashDir", "ReadDatainfo", "MkHashDir", "ScanDatasetNumbers", "TouchIndex", "OpenCsv", "CloseCsv",
            "OpenDatainfo", "CloseDatainfo", "MkModelDir", "OpenModel", "CloseModel", "MkMetaDir", "OpenResults",
@@ -392,7 +393,7 @@ def _job_conc(arg):
     head += bev
     crashed = crash["m"] if crash["op"] == "Store" else None
     fu = [o for o in fu if o.get("m") != crashed]
-    case = {"kind": "concurrent", "schedule": {"pause": "none", "second_writer": other}, "workload": ops, "crash": crash,
+    case = {"kind": "concurrent", "schedule": {"race": "none", "second_writer": other}, "workload": ops, "crash": crash,
             "followups": [o["m"] for o in fu if o["e"] == "Store"]}
     return _prepared(d, case, head, _names_of(ops + bops), fu, crashed)
 
@@ -441,30 +442,76 @@ def _job_enact(arg):
     return out
 
 
+SCHED_SILENT = SILENT | {"InitCommon"}  # steps that need not produce an audited event: no hold points
+
+
+def _blocks(scen):
+    """the interleaving of a two-process counterexample as alternating blocks (process, first audited step, its operation index)"""
+    out = []
+    for p, lab, opi in scen["order"]:
+        if lab in SCHED_SILENT:
+            continue
+        if not out or out[-1][0] != p:
+            out.append((p, lab, opi))
+    return out
+
+
 def _job_pair(arg):
-    """a two-process design counterexample without crash: process B is held BEFORE the step `pause` while A runs to its end"""
-    base, idx, inv, letter, opsA, opsB, pause = arg
+    """a crash-free two-process design counterexample: the real processes are run block by block in TLC's order; a process
+    is held (audit hook) before the first audited step of its next block while the other one moves"""
+    base, idx, inv, letter, ops_by_proc, blocks = arg
     d = os.path.join(base, f"p{idx}")
     os.makedirs(d)
     root = os.path.join(d, "root")
-    sa, sb = os.path.join(d, "statusA"), os.path.join(d, "statusB")
-    marks = {"label": pause, "paused": os.path.join(d, "paused"), "go": os.path.join(d, "go")}
-    pb = R.spawn_child(root, opsB, None, sb, pause=marks)
-    t0 = time.time()
-    while not os.path.exists(marks["paused"]) and time.time() - t0 < 300:
-        r, _ = os.waitpid(pb, os.WNOHANG)
-        if r != 0:
-            pb = None
+    procs = sorted({b[0] for b in blocks})
+    status = {p: os.path.join(d, f"status{p}") for p in procs}
+    holds = {p: [] for p in procs}
+    for bi, (p, lab, opi) in enumerate(blocks):
+        if any(b[0] == p for b in blocks[:bi]):
+            holds[p].append({"label": lab, "opi": opi, "paused": os.path.join(d, f"paused{bi}"), "go": os.path.join(d, f"go{bi}"), "block": bi})
+    pid, nxt, alive = {}, {p: 0 for p in procs}, {}
+    skip = None
+    for bi, (p, lab, opi) in enumerate(blocks):
+        if p not in pid:
+            pid[p] = R.spawn_child(root, ops_by_proc[p], None, status[p], pause=holds[p])
+            alive[p] = True
+        else:
+            h = holds[p][nxt[p]]
+            open(h["go"], "w").close()
+            nxt[p] += 1
+        if not alive[p]:
+            continue
+        # p moves until it is held before its next block, or ends
+        t0 = time.time()
+        target = holds[p][nxt[p]]["paused"] if nxt[p] < len(holds[p]) else None
+        while time.time() - t0 < 600:
+            if target is not None and os.path.exists(target):
+                break
+            r, _ = os.waitpid(pid[p], os.WNOHANG)
+            if r != 0:
+                alive[p] = False
+                if target is not None:
+                    skip = f"process {p} ended before reaching the step {holds[p][nxt[p]]['label']} (block {bi + 1} of {len(blocks)})"
+                break
+            time.sleep(0.01)
+        else:
+            skip = f"time-out in block {bi + 1} of {len(blocks)} (process {p} blocked)"
+        if skip:
             break
-        time.sleep(0.02)
-    held = os.path.exists(marks["paused"])
-    code, recsa = R.run_child(root, opsA, None, sa)
-    open(marks["go"], "w").close()
-    recsb = R.reap_child(pb, sb, timeout=600)[1] if pb is not None else R.read_status(sb)
-    if not held:
+    for p in pid:  # release everything and collect
+        for h in holds[p]:
+            if not os.path.exists(h["go"]):
+                open(h["go"], "w").close()
+    recs = []
+    for p in pid:
+        if alive[p]:
+            recs += R.reap_child(pid[p], status[p], timeout=600)[1]
+        else:
+            recs += R.read_status(status[p])
+    if skip:
         shutil.rmtree(d, ignore_errors=True)
-        return {"skip": f"the second process never reached the step {pause} of the counterexample of {inv}"}
-    recs = sorted([r for r in recsa + recsb if r.get("ph") == "e"], key=lambda r: r["t"])  # order of completion
+        return {"skip": f"the two-process counterexample of {inv} could not be scheduled on the real code: {skip}"}
+    recs = sorted([r for r in recs if r.get("ph") == "e"], key=lambda r: r["t"])  # order of completion
     head = []
     for r in recs:
         e = dict(r["ev"])
@@ -472,25 +519,15 @@ def _job_pair(arg):
         if e["e"] == "Store":
             e.setdefault("troublesome", False)
         head.append(e)
-    case = {"kind": "concurrent", "invariant": inv, "schedule": {"pause": pause, "held": opsB, "second_writer": "none"},
-            "workload": opsA, "crash": dict(NO_CRASH), "followups": []}
-    out = _prepared(d, case, head, _names_of(opsA + opsB), [], None)
+    last = blocks[-1][1]
+    race = "constructors" if last in OPEN_STEPS else "store_key" if last == "Symlink" else last
+    allops = [o for p in procs for o in ops_by_proc[p]]
+    case = {"kind": "concurrent", "invariant": inv, "schedule": {"race": race, "blocks": [list(b) for b in blocks], "ops": {str(p): ops_by_proc[p] for p in procs},
+                                                                 "held": allops, "second_writer": "none"},
+            "workload": ops_by_proc[procs[0]], "crash": dict(NO_CRASH), "followups": []}
+    out = _prepared(d, case, head, _names_of(allops), [], None)
     out["predicted"] = letter
     return out
-
-
-def _pair_plan(scen):
-    """A = the process whose last step comes first; B is held before its first step after A's last one"""
-    order = scen["order"]
-    lastpos = {p: max(i for i, x in enumerate(order) if x[0] == p) for p in range(scen["nproc"]) if any(x[0] == p for x in order)}
-    if len(lastpos) < 2:
-        return None
-    a = min(lastpos, key=lambda p: lastpos[p])
-    b = [p for p in lastpos if p != a][0]
-    nxt = [x for x in order[lastpos[a] + 1:] if x[0] == b and x[1] not in SILENT]
-    if not nxt:
-        return None
-    return scen["segs"][a][0], scen["segs"][b][0], nxt[0][1]
 
 
 def _sem_digest(root):
@@ -878,12 +915,12 @@ def main(tier: str, seed: int) -> int:
             e = _design_entry(inv, letter, res, scen, "two-process property run")
             e["processes"] = 2
             if "scenario" in e:
-                plan = _pair_plan(scen) if scen["ncrash"] == 0 else None
-                if plan is None:
+                if scen["ncrash"] > 0:
                     e["reproduced_on_real_code"] = "not re-enacted (needs a crash inside a two-process schedule)"
                 else:
-                    e["schedule"] = {"runs_first_until": plan[2], "held": plan[1], "other": plan[0]}
-                    jobs.append((_job_pair, (base, len(two_findings), inv, letter, plan[0], plan[1], plan[2])))
+                    blocks = _blocks(scen)
+                    e["schedule"] = [list(b) for b in blocks]
+                    jobs.append((_job_pair, (base, len(two_findings), inv, letter, {p: scen["segs"][p][0] for p in scen["segs"]}, blocks)))
             two_findings.append(e)
             v.add_coverage(states=res.distinct, transitions=res.generated)
 
@@ -1065,8 +1102,9 @@ def replay(path: str) -> int:
             ops, crash = case["workload"], case["crash"]
             fus = case.get("followups", [])
             fu = ([{"e": "Store", "m": m, "n": "f" + m, "d": "dF"} for m in fus] + [{"e": "Log", "g": "gF"}]) if fus and isinstance(fus[0], str) else fus
-            if kind == "concurrent" and case["schedule"]["pause"] != "none":
-                x = _job_pair((str(sc), 0, case.get("invariant", "-"), "-", ops, case["schedule"]["held"], case["schedule"]["pause"]))
+            if kind == "concurrent" and case["schedule"].get("blocks"):
+                sch = case["schedule"]
+                x = _job_pair((str(sc), 0, case.get("invariant", "-"), "-", {int(p): o for p, o in sch["ops"].items()}, [tuple(b) for b in sch["blocks"]]))
             elif kind == "concurrent":
                 dry = _dry((str(sc), 0, ops))
                 x = _job_conc((str(sc), 0, ops, crash["k"], {"events": dry["events"]}, fu, case["schedule"]["second_writer"]))
